@@ -179,6 +179,12 @@ def fixed_probes():
         arrow(g.call('def', g.kwd('f'), g.bn('*', v('x'), c(2))), g.lst(g.call('f', x=c(5)), v('x'))),
         arrow(g.call('let', x=c(0)), arrow(g.call('def', g.kwd('f'), g.bn('+', v('x'), c(1))), g.lst(g.call('f', x=c(5)), v('x'), g.call('f', x=c(7)), g.call('f')))),
         arrow(g.call('def', g.kwd('f'), g.lst(v('x'), v('y'))), g.lst(g.call('f', x=c(1)), g.call('f', y=c(2)), g.call('f', c(3), y=c(4)))),
+        # member access on a collection is member access on every element: a key one element lacks is an error there, too
+        g.attr(g.lst(g.mp((g.kwd('a'), c(1)), (g.kwd('b'), c(2))), g.mp((g.kwd('b'), c(4)))), 'a'),
+        g.attr(g.lst(g.mp((g.kwd('a'), c(1)), (g.kwd('b'), c(2))), g.mp((g.kwd('b'), c(4)))), 'b'),
+        arrow(g.call('let', x=g.lst(g.mp((g.kwd('a'), c(1))), g.mp((g.kwd('b'), c(2))))), g.attr(v('x'), 'a')),
+        g.attr(g.mcall(g.mcall(g.lst(g.mp((g.kwd('a'), c(1))), g.mp((g.kwd('b'), c(2)))), 'where', c(True)), 'toList'), 'a'),
+        g.mcall(g.mcall(g.lst(g.mp((g.kwd('a'), c(1))), g.mp((g.kwd('b'), c(2)))), 'select', g.attr(X, 'a')), 'toList'),
         # ?. only steps aside for null: an empty or false-like receiver is a receiver
         g.lst(g.safemcall(g.lst(), 'select', g.bn('+', X, c(1))), g.safemcall(g.lst(), 'len'), g.safemcall(c(None), 'len'), g.safemcall(c(0), 'len'),
               g.safemcall(c(''), 'len'), g.safemcall(c(False), 'len')),
